@@ -193,3 +193,18 @@ Definition stage (cs : list route) (ps : list str) : N :=
          else if minc cs <? maxc cs then (if minc cs <? 100 then 3 else 4)
          else if existsb (pc_eq ps) cs then 5 else 6
   end.
+
+(* ---------------------------------------------------------------- histories on one router *)
+(* Router.New and FindRoute interleaved on the same router: FindRoute reads nothing but the route map
+   as it is at the time of the call (no memory of earlier lookups).  T = routes registered so far. *)
+Inductive op := Reg (r : route) | Look (method path : str).
+
+Fixpoint run (T : list route) (ops : list op) : list outcome :=
+  match ops with
+  | [] => []
+  | Reg r :: t => run (T ++ [r]) t
+  | Look m p :: t => find_route T m p :: run T t
+  end.
+
+Definition regs (ops : list op) : list route :=
+  flat_map (fun o => match o with Reg r => [r] | Look _ _ => [] end) ops.
